@@ -222,7 +222,18 @@ func runC16(c *core.Ctx) {
 		var hoisted []string
 		for _, cs := range core.CallsIn(info, fn.Decl, false) {
 			if strings.HasSuffix(cs.Key, ".inheritKey") {
-				k, _ := core.StringConst(info, cs.Call.Args[0])
+				// the key is the argument that is a constant name, wherever it stands
+				k, found := "", 0
+				for _, a := range cs.Call.Args {
+					if sv, isS := core.StringConst(info, a); isS {
+						k = sv
+						found++
+					}
+				}
+				if found != 1 {
+					o.Unrec("%s: inheritKey is not called with exactly one constant key: which attribute it hoists is not decided", c.Prog.Pos(cs.Call.Pos()))
+					continue
+				}
 				hoisted = append(hoisted, k)
 				o.At(fn.Site(cs.Call, "hoists "+k))
 			}
